@@ -88,6 +88,14 @@ def h_reduced(eng, units):
     q2 = ureg.Quantity(x, uc)
     q2.ito_reduced_units()
     _same_q(eng, q2, r, "ito_reduced")
+    # the same units written in the opposite order, in the same registry (whatever the first
+    # reduction memoised must not leak into the second)
+    if len(units) > 1:
+        q3 = ureg.Quantity(x, _uc(ureg, list(reversed(units))))
+        r3 = q3.to_reduced_units()
+        _preserved(eng, q3, r3, x, "reduced-reversed-order")
+        q4 = ureg.Quantity(x, uc)
+        _preserved(eng, q4, q4.to_reduced_units(), x, "reduced-again")
     # no two units of the result could be merged: their dimension vectors are not
     # proportional (REF); a dimensionless quantity ends with no units at all
     names = list(r._units)
@@ -143,6 +151,28 @@ def h_compact(eng, units, sign):
         mb = abs(q.to(stem).magnitude)
         exists = And(mb >= Fraction(1, 10**30), mb < Fraction(10**33))
         eng.prove(Implies(exists, And(m >= 1, m < 1000)), "compact-range-[1,1000)")
+
+
+def h_compact_uncertain(eng, unit):
+    """to_compact of a quantity whose magnitude carries an uncertainty (affine ufloat model):
+    the prefix is chosen from the nominal value exactly as for the bare number, and nominal
+    value and standard deviation are rescaled together"""
+    from ..sx.stubs import SymUFloat, ufloat_stub
+
+    ureg = regs.default(eng)
+    x, sd = eng.real("x"), eng.real("sd")
+    eng.assume(x > 0)
+    eng.assume(sd >= 0)
+    ctx = qto_math_shim() if eng.symbolic else _null()
+    with ctx, ufloat_stub():
+        plain = ureg.Quantity(x, unit).to_compact()
+        q = ureg.Quantity(SymUFloat(x, sd), unit)
+        r = q.to_compact()
+    eng.prove(r._units == plain._units, "compact-uncertain-same-unit-as-plain")
+    eng.prove(Eq(r.magnitude.nominal_value, plain.magnitude), "compact-uncertain-nominal")
+    f = ureg.Quantity(1, unit).to(plain.units).magnitude
+    eng.prove(Eq(r.magnitude.std_dev, sd * f), "compact-uncertain-std-dev")
+    eng.prove(And(Eq(q.magnitude.nominal_value, x), Eq(q.magnitude.std_dev, sd)), "compact-uncertain-operand-untouched")
 
 
 def _strip_prefix(ureg, name):
@@ -236,6 +266,8 @@ def cases(tier, seed):
             out.append(Case("H15.c", f"compact:{_sig(ul)}:{'+' if sign > 0 else '-'}", M, "h_compact", {"units": ul, "sign": sign}, opts={"max_paths": 3000, "query_timeout_ms": 30000}, weight=20.0, validate=0))
     for u in ("meter", "newton"):
         out.append(Case("H15.c", f"compact-unchanged:{u}", M, "h_compact_unchanged", {"unit": u}, validate=0))
+    for u in ("kilometer", "millisecond", "meter", "megabyte") + (("microgram", "gigahertz", "newton") if big else ()):
+        out.append(Case("H15.c", f"compact-uncertain:{u}", M, "h_compact_uncertain", {"unit": u}, opts={"max_paths": 3000, "query_timeout_ms": 30000}, weight=20.0, validate=0))
     prefs = [([["acre", 1]], ["meter"]), ([["force_pound", 1], ["meter", 1]], ["watt", "second"]), ([["mile", 1], ["hour", -1]], ["meter", "second"]), ([["gram", 1], ["inch", 2], ["minute", -2]], ["joule"]), ([["psi", 1]], ["newton", "meter"])]
     for ul, pref in prefs:
         ul = [[_canon(n), e] for n, e in ul]
